@@ -6,7 +6,7 @@ from .. import run as R
 
 
 def run_campaign(chk, b, profiles, ncases, facets, sig_prefix, nontrivial_fn, rule, want_table=False,
-                 names_modes=("full",), permute=0.0, nsel=3, sigfn=None):
+                 names_modes=("full", "full", "hash", "none"), permute=0.0, nsel=3, sigfn=None):
     sz = b.sizer()
     shim = b.shimdir() if permute else None
     scratch = b.scratchdir()
